@@ -473,6 +473,95 @@ func (k *ck) stepBlobs() {
 	}()
 }
 
+// setProfileHistories: the packs that take a step list (SetProfile, SetStack) hold exactly the list
+// handed over last, whatever they held before: a fresh pack, a pack whose blob was assigned, a pack
+// that was read from the wire, and a pack that was filled before (a sender refilling one pack per
+// chunk), over lists of 0, 1, 2 and all steps.
+func (k *ck) setProfileHistories() {
+	var all []step.Step
+	for _, st := range stepTypes {
+		if step.CreateStep(st.mk().GetStepType()) == nil {
+			continue
+		}
+		o, _ := build(func() interface{} { return st.mk() }, 1, nil)
+		all = append(all, o.(step.Step))
+	}
+	lists := [][]step.Step{nil, all[:1], all[1:3], all}
+	old := step.ToBytesStep(all[2:4])
+	type target struct {
+		name  string
+		fresh func() interface{}
+		set   func(p interface{}, l []step.Step)
+		blob  func(p interface{}) []byte
+		put   func(p interface{}, b []byte)
+		rt    func(p interface{}) interface{}
+	}
+	targets := []target{
+		{"ProfilePack", func() interface{} { p := pack.NewProfilePack(); p.Transaction = service.NewTxRecord(); return p },
+			func(p interface{}, l []step.Step) { p.(*pack.ProfilePack).SetProfile(l) },
+			func(p interface{}) []byte { return p.(*pack.ProfilePack).Steps },
+			func(p interface{}, b []byte) { p.(*pack.ProfilePack).Steps = b },
+			func(p interface{}) interface{} { return pack.ToPack(pack.ToBytesPack(p.(*pack.ProfilePack))) }},
+		{"ProfileStepSplitPack", func() interface{} { return pack.NewProfileStepSplitPack() },
+			func(p interface{}, l []step.Step) { p.(*pack.ProfileStepSplitPack).SetProfile(l) },
+			func(p interface{}) []byte { return p.(*pack.ProfileStepSplitPack).Steps },
+			func(p interface{}, b []byte) { p.(*pack.ProfileStepSplitPack).Steps = b },
+			func(p interface{}) interface{} {
+				out := gio.NewDataOutputX()
+				p.(*pack.ProfileStepSplitPack).Write(out)
+				d := pack.NewProfileStepSplitPack()
+				d.Read(gio.NewDataInputX(out.ToByteArray()))
+				return d
+			}},
+		{"ErrorSnapPack1", func() interface{} { return pack.NewErrorSnapPack1() },
+			func(p interface{}, l []step.Step) { p.(*pack.ErrorSnapPack1).SetProfile(l) },
+			func(p interface{}) []byte { return p.(*pack.ErrorSnapPack1).Profile },
+			func(p interface{}, b []byte) { p.(*pack.ErrorSnapPack1).Profile = b },
+			func(p interface{}) interface{} { return pack.ToPack(pack.ToBytesPack(p.(*pack.ErrorSnapPack1))) }},
+	}
+	for _, t := range targets {
+		starts := []struct {
+			name string
+			mk   func() interface{}
+		}{
+			{"fresh", t.fresh},
+			{"blob assigned", func() interface{} { p := t.fresh(); t.put(p, append([]byte{}, old...)); return p }},
+			{"read from the wire", func() interface{} { p := t.fresh(); t.put(p, append([]byte{}, old...)); return t.rt(p) }},
+		}
+		for _, st := range starts {
+			for i1, l1 := range lists {
+				for i2, l2 := range append([][]step.Step{nil}, lists...) {
+					atomic.AddInt64(&k.evals, 1)
+					atomic.AddInt64(&k.nontriv, 1)
+					desc := fmt.Sprintf("%s (%s) SetProfile(list %d)", t.name, st.name, i1)
+					func() {
+						defer func() {
+							if r := recover(); r != nil {
+								k.viol(t.name+":SetProfile:panic", fmt.Sprintf("%s: %v", desc, r))
+							}
+						}()
+						p := st.mk()
+						t.set(p, l1)
+						want := step.ToBytesStep(l1)
+						if i2 > 0 {
+							desc += fmt.Sprintf(" SetProfile(list %d)", i2-1)
+							t.set(p, l2)
+							want = step.ToBytesStep(l2)
+						}
+						if !bytes.Equal(t.blob(p), want) {
+							k.viol(t.name+":SetProfile:content", fmt.Sprintf("%s: the pack holds %d bytes of steps, the list handed over last encodes to %d bytes", desc, len(t.blob(p)), len(want)))
+							return
+						}
+						if d := t.rt(p); !bytes.Equal(t.blob(d), want) {
+							k.viol(t.name+":SetProfile:round-trip", fmt.Sprintf("%s: after the wire round trip the pack holds %d bytes of steps, expected %d", desc, len(t.blob(d)), len(want)))
+						}
+					}()
+				}
+			}
+		}
+	}
+}
+
 func Run(c *evid.Ctx) {
 	k := &ck{c: c}
 	kdev, sl := 1, 3
@@ -508,6 +597,7 @@ func Run(c *evid.Ctx) {
 	k.txRecords(kdev)
 	k.services(kdev)
 	k.stepBlobs()
+	k.setProfileHistories()
 	// distinguishing-value baseline: a writer that stops carrying a value is invisible to the round trip
 	dist := packs.NewDistinct(filepath.Join(evid.Root, "harness", "props", "c08", "distinguishing.json"))
 	for _, st := range stepTypes {
